@@ -206,7 +206,13 @@ func (f *DB) Reload(path string, validationKey []byte, reloadTimeout time.Durati
 
 		// Validate newDBI
 		newDB := &DB{dbi: newDBI}
-		err = newDB.validateDbKeyOrDestroy(validationKey)
+		if newDBI == f.dbi {
+			// same backend (e.g. RocksDB catch-up): it is still the served one and
+			// may have readers, so a failed validation must not close it
+			err = newDB.ValidateDbKey(validationKey)
+		} else {
+			err = newDB.validateDbKeyOrDestroy(validationKey)
+		}
 		if err != nil {
 			glog.Errorf("Key validation for New DBI failed, using old DB instead")
 			return f, err
